@@ -1,7 +1,8 @@
 import TemplVerif.Model.Registry
+import TemplVerif.Proofs.RegistryAux
 /- Helper lemmas for C12. -/
 namespace TemplVerif.Proofs.Registry
-open TemplVerif.Registry
+open TemplVerif.Registry TemplVerif.Proofs.RegistryAux
 
 def isScriptDefOf (n : Nat) : Event → Bool
   | .scriptDef ns => ns.contains n
@@ -11,33 +12,447 @@ def isStyleDefOf (id : Nat) : Event → Bool
   | .styleDef ids => ids.contains id
   | _ => false
 
+def sf (acc : Ctx × List Nat) (n : Nat) : Ctx × List Nat :=
+  if acc.1.scripts.contains n then acc else ({ acc.1 with scripts := acc.1.scripts ++ [n] }, acc.2 ++ [n])
+
+theorem renderScriptItems_eq (c : Ctx) (names : List Nat) :
+    renderScriptItems c names = ((names.foldl sf (c, [])).1,
+      if (names.foldl sf (c, [])).2.isEmpty then [] else [.scriptDef (names.foldl sf (c, [])).2]) := rfl
+
+theorem sf_fold (names : List Nat) : ∀ acc : Ctx × List Nat,
+    (∀ x, x ∈ (names.foldl sf acc).1.scripts ↔ x ∈ acc.1.scripts ∨ x ∈ names) ∧
+    (∀ x, x ∈ (names.foldl sf acc).2 ↔ x ∈ acc.2 ∨ (x ∈ names ∧ x ∉ acc.1.scripts)) ∧
+    (names.foldl sf acc).1.classes = acc.1.classes ∧ (names.foldl sf acc).1.onces = acc.1.onces := by
+  induction names with
+  | nil => intro acc; simp
+  | cons n rest ih =>
+    intro acc
+    rw [List.foldl_cons]
+    obtain ⟨i1, i2, i3, i4⟩ := ih (sf acc n)
+    have s1 : ∀ x, x ∈ (sf acc n).1.scripts ↔ x ∈ acc.1.scripts ∨ x = n := by
+      intro x; unfold sf; split <;> simp_all
+    have s2 : ∀ x, x ∈ (sf acc n).2 ↔ x ∈ acc.2 ∨ (x = n ∧ n ∉ acc.1.scripts) := by
+      intro x; unfold sf; split <;> simp_all
+    have s3 : (sf acc n).1.classes = acc.1.classes := by unfold sf; split <;> simp
+    have s4 : (sf acc n).1.onces = acc.1.onces := by unfold sf; split <;> simp
+    refine ⟨?_, ?_, by rw [i3, s3], by rw [i4, s4]⟩
+    · intro x; rw [i1, s1]; simp [or_assoc]
+    · intro x; rw [i2, s2, s1]
+      simp only [List.mem_cons]
+      by_cases hx : x = n
+      · subst hx; simp only [true_and, true_or, or_true, not_true, and_false, or_false]
+      · simp [hx]
+
+def cf (a : Ctx × List Nat) (id : Nat) : Ctx × List Nat := cssComp id a
+
+theorem cf_fold (names : List Nat) : ∀ acc : Ctx × List Nat,
+    (∀ x, x ∈ (names.foldl cf acc).1.classes ↔ x ∈ acc.1.classes ∨ x ∈ names) ∧
+    (∀ x, x ∈ (names.foldl cf acc).2 ↔ x ∈ acc.2 ∨ (x ∈ names ∧ x ∉ acc.1.classes)) ∧
+    (names.foldl cf acc).1.scripts = acc.1.scripts ∧ (names.foldl cf acc).1.onces = acc.1.onces := by
+  induction names with
+  | nil => intro acc; simp
+  | cons n rest ih =>
+    intro acc
+    rw [List.foldl_cons]
+    obtain ⟨i1, i2, i3, i4⟩ := ih (cf acc n)
+    have s1 : ∀ x, x ∈ (cf acc n).1.classes ↔ x ∈ acc.1.classes ∨ x = n := by
+      intro x; unfold cf cssComp; split <;> simp_all
+    have s2 : ∀ x, x ∈ (cf acc n).2 ↔ x ∈ acc.2 ∨ (x = n ∧ n ∉ acc.1.classes) := by
+      intro x; unfold cf cssComp; split <;> simp_all
+    have s3 : (cf acc n).1.scripts = acc.1.scripts := by unfold cf cssComp; split <;> simp
+    have s4 : (cf acc n).1.onces = acc.1.onces := by unfold cf cssComp; split <;> simp
+    refine ⟨?_, ?_, by rw [i3, s3], by rw [i4, s4]⟩
+    · intro x; rw [i1, s1]; simp [or_assoc]
+    · intro x; rw [i2, s2, s1]
+      simp only [List.mem_cons]
+      by_cases hx : x = n
+      · subst hx; simp only [true_and, true_or, or_true, not_true, and_false, or_false]
+      · simp [hx]
+
+mutual
+  def compIds : ClassItem → List Nat
+    | .comp id => [id]
+    | .kvComp id on => if on then [id] else []
+    | .kvIface id on => if on then [id] else []
+    | .classes items => compIdsList items
+    | .slice ids => ids
+    | .kvSlice id on id2 => (if on then [id] else []) ++ [id2]
+    | .fn id => [id]
+    | .const _ => []
+  def compIdsList : List ClassItem → List Nat
+    | [] => []
+    | i :: rest => compIds i ++ compIdsList rest
+end
+
+mutual
+  theorem cssItem_eq : ∀ (i : ClassItem) (acc : Ctx × List Nat), cssItem i acc = (compIds i).foldl cf acc
+    | .comp id, acc => by simp [cssItem, compIds, cf]
+    | .kvComp id on, acc => by cases on <;> simp [cssItem, compIds, cf]
+    | .kvIface id on, acc => by cases on <;> simp [cssItem, compIds, cf]
+    | .classes items, acc => by simp [cssItem, compIds, cssItems_eq items acc]
+    | .slice ids, acc => by simp [cssItem, compIds]; rfl
+    | .kvSlice id on id2, acc => by cases on <;> simp [cssItem, compIds, cf]
+    | .fn id, acc => by simp [cssItem, compIds, cf]
+    | .const _, acc => by simp [cssItem, compIds]
+  theorem cssItems_eq : ∀ (l : List ClassItem) (acc : Ctx × List Nat), cssItems l acc = (compIdsList l).foldl cf acc
+    | [], acc => by simp [cssItems, compIdsList]
+    | i :: rest, acc => by simp [cssItems, compIdsList, List.foldl_append, cssItem_eq i acc, cssItems_eq rest]
+end
+
+mutual
+  theorem namesOf_sub : ∀ (i : ClassItem) (id : Nat), id < 1000 → (id, true) ∈ namesOf i → id ∈ compIds i
+    | .comp id', id, _, h => by simp_all [namesOf, compIds]
+    | .kvComp id' on, id, _, h => by simp_all [namesOf, compIds]
+    | .kvIface id' on, id, _, h => by simp_all [namesOf, compIds]
+    | .classes items, id, hlt, h => by
+        simp only [namesOf] at h; simp only [compIds]; exact namesOfList_sub items id hlt h
+    | .slice ids, id, _, h => by simp_all [namesOf, compIds]
+    | .kvSlice id' on id2, id, _, h => by
+        simp [namesOf] at h; simp [compIds]; rcases h with ⟨h1, h2⟩ | h <;> simp_all
+    | .fn id', id, _, h => by simp_all [namesOf, compIds]
+    | .const n, id, hlt, h => by simp [namesOf] at h; omega
+  theorem namesOfList_sub : ∀ (l : List ClassItem) (id : Nat), id < 1000 → (id, true) ∈ namesOfList l → id ∈ compIdsList l
+    | [], id, _, h => by simp [namesOfList] at h
+    | i :: rest, id, hlt, h => by
+        simp only [namesOfList, List.mem_append] at h
+        simp only [compIdsList, List.mem_append]
+        rcases h with h | h
+        · exact Or.inl (namesOf_sub i id hlt h)
+        · exact Or.inr (namesOfList_sub rest id hlt h)
+end
+
+theorem classNames_sub (items : List ClassItem) (id : Nat) (hlt : id < 1000) (h : id ∈ classNames items) :
+    id ∈ compIdsList items := by
+  apply namesOfList_sub items id hlt
+  unfold classNames at h
+  simp only [List.mem_filter] at h
+  obtain ⟨_, h2⟩ := h
+  cases hf : (namesOfList items).reverse.find? (·.1 == id) with
+  | none => simp [hf] at h2
+  | some pr =>
+    simp [hf] at h2
+    have hm := List.mem_of_find?_eq_some hf
+    have hp := List.find?_some hf
+    simp at hp hm
+    obtain ⟨a, b⟩ := pr
+    simp_all
+
+def Shape (D : List Nat → Event) (P : Nat → Event → Bool) (old new : List Nat) (ev : List Event) : Prop :=
+  ∃ fresh tail, ev = (if fresh.isEmpty then [] else [D fresh]) ++ tail ∧ (∀ e ∈ tail, ∀ n, P n e = false) ∧
+    (∀ x, x ∈ new ↔ x ∈ old ∨ x ∈ fresh) ∧ (∀ x ∈ fresh, x ∉ old)
+
+theorem shape_facts {D : List Nat → Event} {P : Nat → Event → Bool} {old new : List Nat} {ev : List Event}
+    (hPD : ∀ n ns, P n (D ns) = ns.contains n) (hs : Shape D P old new ev) (n : Nat) :
+    (ev.filter (P n)).length ≤ 1 ∧ (n ∈ old → (ev.filter (P n)).length = 0) ∧ (n ∈ old → n ∈ new) ∧
+    ((ev.filter (P n)).length ≠ 0 → n ∈ new) ∧
+    (n ∈ new → n ∈ old ∨ ∃ d rest, ev = d :: rest ∧ P n d = true) := by
+  obtain ⟨fresh, tail, hev, ht, hnew, hfr⟩ := hs
+  have htail : tail.filter (P n) = [] := by
+    rw [List.filter_eq_nil_iff]; intro e he; simp [ht e he n]
+  subst hev
+  rw [List.filter_append, htail, List.append_nil]
+  by_cases hemp : fresh.isEmpty
+  · have hf : fresh = [] := by simpa using hemp
+    subst hf
+    simp at hnew
+    simp [hnew]
+    intro ho; exact Or.inl ho
+  · simp only [hemp, Bool.false_eq_true, if_false]
+    by_cases hc : n ∈ fresh
+    · have hp : P n (D fresh) = true := by rw [hPD]; simpa using hc
+      simp [hp, hnew, hc]
+      intro ho; exact absurd ho (hfr n hc)
+    · have hp : P n (D fresh) = false := by rw [hPD]; simpa using hc
+      simp [hp, hnew, hc]
+
+theorem shape_of_fold {D : List Nat → Event} {P : Nat → Event → Bool} {old new fresh names : List Nat}
+    (h1 : ∀ x, x ∈ new ↔ x ∈ old ∨ x ∈ names)
+    (h2 : ∀ x, x ∈ fresh ↔ x ∈ ([] : List Nat) ∨ (x ∈ names ∧ x ∉ old)) (tail : List Event)
+    (ht : ∀ e ∈ tail, ∀ n, P n e = false) :
+    Shape D P old new ((if fresh.isEmpty then [] else [D fresh]) ++ tail) := by
+  refine ⟨fresh, tail, rfl, ht, ?_, ?_⟩
+  · intro x; rw [h1, h2]
+    by_cases hx : x ∈ old <;> simp [hx]
+  · intro x hx; rw [h2] at hx; simp at hx; exact hx.2
+
+theorem shape_empty {D : List Nat → Event} {P : Nat → Event → Bool} {old : List Nat} {ev : List Event}
+    (ht : ∀ e ∈ ev, ∀ n, P n e = false) : Shape D P old old ev :=
+  ⟨[], ev, by simp, ht, by simp, by simp⟩
+
+/-! explicit forms of `step` -/
+theorem step_sc (c : Ctx) (m : Nat) (hc : Bool) : step c (.scriptComponent m hc) =
+    (([m].foldl sf (c, [])).1,
+      (if ([m].foldl sf (c, [])).2.isEmpty then [] else [.scriptDef ([m].foldl sf (c, [])).2]) ++
+        (if hc then [.scriptCall m] else [])) := rfl
+
+theorem step_sa (c : Ctx) (names : List Nat) : step c (.scriptAttrs names) =
+    ((names.foldl sf (c, [])).1,
+      (if (names.foldl sf (c, [])).2.isEmpty then [] else [.scriptDef (names.foldl sf (c, [])).2]) ++
+        names.map .scriptCall) := rfl
+
+theorem step_ca (c : Ctx) (items : List ClassItem) : step c (.classAttr items) =
+    (((compIdsList items).foldl cf (c, [])).1,
+      (if ((compIdsList items).foldl cf (c, [])).2.isEmpty then []
+        else [.styleDef ((compIdsList items).foldl cf (c, [])).2]) ++
+        (classNames items).map .className) := by
+  rw [← cssItems_eq]; rfl
+
+theorem step_once (c : Ctx) (h : Nat) : step c (.once h) =
+    if c.onces.contains h then (c, []) else ({ c with onces := c.onces ++ [h] }, [.onceContent h]) := rfl
+
+theorem step_script_shape (c : Ctx) (u : Use) :
+    Shape .scriptDef isScriptDefOf c.scripts (step c u).1.scripts (step c u).2 := by
+  cases u with
+  | scriptComponent m hc =>
+    rw [step_sc]
+    obtain ⟨f1, f2, _, _⟩ := sf_fold [m] (c, [])
+    apply shape_of_fold f1 f2
+    intro e he n; cases hc <;> simp at he; subst he; rfl
+  | scriptAttrs names =>
+    rw [step_sa]
+    obtain ⟨f1, f2, _, _⟩ := sf_fold names (c, [])
+    apply shape_of_fold f1 f2
+    intro e he n; simp at he; obtain ⟨a, _, rfl⟩ := he; rfl
+  | classAttr items =>
+    rw [step_ca]
+    obtain ⟨_, _, f3, _⟩ := cf_fold (compIdsList items) (c, [])
+    simp only [f3]
+    apply shape_empty
+    intro e he n
+    simp at he
+    rcases he with ⟨_, rfl⟩ | ⟨a, _, rfl⟩
+    · rfl
+    · rfl
+  | once h =>
+    rw [step_once]
+    split
+    · apply shape_empty; simp
+    · apply shape_empty; intro e he n; simp at he; subst he; rfl
+
+theorem step_class_shape (c : Ctx) (u : Use) :
+    Shape .styleDef isStyleDefOf c.classes (step c u).1.classes (step c u).2 := by
+  cases u with
+  | scriptComponent m hc =>
+    rw [step_sc]
+    obtain ⟨_, _, f3, _⟩ := sf_fold [m] (c, [])
+    simp only [f3]
+    apply shape_empty
+    intro e he n
+    simp only [List.mem_append] at he
+    rcases he with he | he
+    · split at he <;> simp at he; subst he; rfl
+    · cases hc <;> simp at he; subst he; rfl
+  | scriptAttrs names =>
+    rw [step_sa]
+    obtain ⟨_, _, f3, _⟩ := sf_fold names (c, [])
+    simp only [f3]
+    apply shape_empty
+    intro e he n
+    simp only [List.mem_append] at he
+    rcases he with he | he
+    · split at he <;> simp at he; subst he; rfl
+    · simp at he; obtain ⟨a, _, rfl⟩ := he; rfl
+  | classAttr items =>
+    rw [step_ca]
+    obtain ⟨f1, f2, _, _⟩ := cf_fold (compIdsList items) (c, [])
+    apply shape_of_fold f1 f2
+    intro e he n; simp at he; obtain ⟨a, _, rfl⟩ := he; rfl
+  | once h =>
+    rw [step_once]
+    split
+    · apply shape_empty; simp
+    · apply shape_empty; intro e he n; simp at he; subst he; rfl
+
+theorem hPD_script (n : Nat) (ns : List Nat) : isScriptDefOf n (.scriptDef ns) = ns.contains n := rfl
+theorem hPD_style (n : Nat) (ns : List Nat) : isStyleDefOf n (.styleDef ns) = ns.contains n := rfl
+
+theorem defsOfScript_eq (n : Nat) (es : List Event) :
+    defsOfScript n es = (es.filter (isScriptDefOf n)).length := by
+  unfold defsOfScript; congr 1
+
+theorem defsOfClass_eq (n : Nat) (es : List Event) :
+    defsOfClass n es = (es.filter (isStyleDefOf n)).length := by
+  unfold defsOfClass; congr 1
+
 /-- Each script's definition is emitted at most once per context, and not at all if the context already has it. -/
 theorem script_def_once (uses : List Use) (c : Ctx) (n : Nat) :
     defsOfScript n (run c uses).2 ≤ 1 ∧ (n ∈ c.scripts → defsOfScript n (run c uses).2 = 0) := by
-  sorry
+  rw [defsOfScript_eq]
+  exact once_generic (isScriptDefOf n) (fun c => n ∈ c.scripts)
+    (fun c u => (shape_facts hPD_script (step_script_shape c u) n).1)
+    (fun c u => (shape_facts hPD_script (step_script_shape c u) n).2.1)
+    (fun c u => (shape_facts hPD_script (step_script_shape c u) n).2.2.1)
+    (fun c u => (shape_facts hPD_script (step_script_shape c u) n).2.2.2.1) uses c
 
 /-- Each CSS rule is emitted at most once per context, and never for a class the context already holds
     (in particular: classes pre-registered by the middleware are never inlined). -/
 theorem class_def_once (uses : List Use) (c : Ctx) (id : Nat) :
     defsOfClass id (run c uses).2 ≤ 1 ∧ (id ∈ c.classes → defsOfClass id (run c uses).2 = 0) := by
-  sorry
+  rw [defsOfClass_eq]
+  exact once_generic (isStyleDefOf id) (fun c => id ∈ c.classes)
+    (fun c u => (shape_facts hPD_style (step_class_shape c u) id).1)
+    (fun c u => (shape_facts hPD_style (step_class_shape c u) id).2.1)
+    (fun c u => (shape_facts hPD_style (step_class_shape c u) id).2.2.1)
+    (fun c u => (shape_facts hPD_style (step_class_shape c u) id).2.2.2.1) uses c
+
+theorem filter_len_zero {p : Event → Bool} {ev : List Event} (h : ∀ e ∈ ev, p e = false) :
+    (ev.filter p).length = 0 := by
+  have : ev.filter p = [] := by
+    rw [List.filter_eq_nil_iff]; intro e he; simp [h e he]
+  simp [this]
+
+theorem step_once_facts (c : Ctx) (u : Use) (h : Nat) :
+    (((step c u).2.filter (fun e => e == .onceContent h)).length ≤ 1) ∧
+    (h ∈ c.onces → ((step c u).2.filter (fun e => e == .onceContent h)).length = 0) ∧
+    (h ∈ c.onces → h ∈ (step c u).1.onces) ∧
+    (((step c u).2.filter (fun e => e == .onceContent h)).length ≠ 0 → h ∈ (step c u).1.onces) := by
+  cases u with
+  | scriptComponent m hc =>
+    rw [step_sc]
+    obtain ⟨_, _, _, f4⟩ := sf_fold [m] (c, [])
+    simp only [f4]
+    have hz : ∀ e ∈ (if ([m].foldl sf (c, [])).2.isEmpty then [] else [Event.scriptDef ([m].foldl sf (c, [])).2]) ++
+        (if hc then [Event.scriptCall m] else []), (fun e => e == Event.onceContent h) e = false := by
+      intro e he
+      simp only [List.mem_append] at he
+      rcases he with he | he
+      · split at he <;> simp at he; subst he; rfl
+      · cases hc <;> simp at he; subst he; rfl
+    rw [filter_len_zero hz]; simp
+  | scriptAttrs names =>
+    rw [step_sa]
+    obtain ⟨_, _, _, f4⟩ := sf_fold names (c, [])
+    simp only [f4]
+    have hz : ∀ e ∈ (if (names.foldl sf (c, [])).2.isEmpty then [] else [Event.scriptDef (names.foldl sf (c, [])).2]) ++
+        names.map Event.scriptCall, (fun e => e == Event.onceContent h) e = false := by
+      intro e he
+      simp only [List.mem_append] at he
+      rcases he with he | he
+      · split at he <;> simp at he; subst he; rfl
+      · simp at he; obtain ⟨a, _, rfl⟩ := he; rfl
+    rw [filter_len_zero hz]; simp
+  | classAttr items =>
+    rw [step_ca]
+    obtain ⟨_, _, _, f4⟩ := cf_fold (compIdsList items) (c, [])
+    simp only [f4]
+    have hz : ∀ e ∈ (if ((compIdsList items).foldl cf (c, [])).2.isEmpty then []
+          else [Event.styleDef ((compIdsList items).foldl cf (c, [])).2]) ++
+        (classNames items).map Event.className, (fun e => e == Event.onceContent h) e = false := by
+      intro e he
+      simp only [List.mem_append] at he
+      rcases he with he | he
+      · split at he <;> simp at he; subst he; rfl
+      · simp at he; obtain ⟨a, _, rfl⟩ := he; rfl
+    rw [filter_len_zero hz]; simp
+  | once h' =>
+    rw [step_once]
+    by_cases hc : c.onces.contains h' = true
+    · simp only [hc, if_true]; simp
+    · simp only [hc]
+      by_cases hh : h' = h
+      · subst hh
+        simp at hc
+        simp [hc]
+      · have : (Event.onceContent h' == Event.onceContent h) = false := by simp [hh]
+        simp [this]
+        intro hm; exact Or.inl hm
 
 /-- Each once handle's content is emitted at most once per context. -/
 theorem once_content_once (uses : List Use) (c : Ctx) (h : Nat) :
     oncesOf h (run c uses).2 ≤ 1 ∧ (h ∈ c.onces → oncesOf h (run c uses).2 = 0) := by
-  sorry
+  unfold oncesOf
+  exact once_generic (fun e => e == .onceContent h) (fun c => h ∈ c.onces)
+    (fun c u => (step_once_facts c u h).1)
+    (fun c u => (step_once_facts c u h).2.1)
+    (fun c u => (step_once_facts c u h).2.2.1)
+    (fun c u => (step_once_facts c u h).2.2.2) uses c
+
+theorem script_call_in_new (c : Ctx) (u : Use) (n : Nat) (h : Event.scriptCall n ∈ (step c u).2) :
+    n ∈ (step c u).1.scripts := by
+  cases u with
+  | scriptComponent m hc =>
+    rw [step_sc] at h ⊢
+    obtain ⟨f1, _, _, _⟩ := sf_fold [m] (c, [])
+    rw [f1]
+    simp only [List.mem_append] at h
+    rcases h with h | h
+    · split at h <;> simp at h
+    · cases hc <;> simp at h
+      subst h; simp
+  | scriptAttrs names =>
+    rw [step_sa] at h ⊢
+    obtain ⟨f1, _, _, _⟩ := sf_fold names (c, [])
+    rw [f1]
+    simp only [List.mem_append] at h
+    rcases h with h | h
+    · split at h <;> simp at h
+    · simp at h; exact Or.inr h
+  | classAttr items =>
+    rw [step_ca] at h
+    simp only [List.mem_append] at h
+    rcases h with h | h
+    · split at h <;> simp at h
+    · simp at h
+  | once h' =>
+    rw [step_once] at h
+    split at h <;> simp at h
+
+theorem class_name_in_new (c : Ctx) (u : Use) (id : Nat) (hlt : id < 1000)
+    (h : Event.className id ∈ (step c u).2) : id ∈ (step c u).1.classes := by
+  cases u with
+  | scriptComponent m hc =>
+    rw [step_sc] at h
+    simp only [List.mem_append] at h
+    rcases h with h | h
+    · split at h <;> simp at h
+    · cases hc <;> simp at h
+  | scriptAttrs names =>
+    rw [step_sa] at h
+    simp only [List.mem_append] at h
+    rcases h with h | h
+    · split at h <;> simp at h
+    · simp at h
+  | classAttr items =>
+    rw [step_ca] at h ⊢
+    obtain ⟨f1, _, _, _⟩ := cf_fold (compIdsList items) (c, [])
+    rw [f1]
+    simp only [List.mem_append] at h
+    rcases h with h | h
+    · split at h <;> simp at h
+    · simp at h; exact Or.inr (classNames_sub items id hlt h)
+  | once h' =>
+    rw [step_once] at h
+    split at h <;> simp at h
 
 /-- Definition before use: wherever a call of script n appears, its definition appeared earlier in this context's
     output, unless the context had it already. -/
 theorem script_def_before_call (uses : List Use) (c : Ctx) (n : Nat) (hn : n ∉ c.scripts) (i : Nat)
     (hi : (run c uses).2[i]? = some (.scriptCall n)) :
     ∃ j, j < i ∧ ∃ e, (run c uses).2[j]? = some e ∧ isScriptDefOf n e = true := by
-  sorry
+  have key := before_generic (.scriptCall n) (isScriptDefOf n) (fun c => n ∈ c.scripts) rfl
+    (fun c u hq => (shape_facts hPD_script (step_script_shape c u) n).2.2.2.2 (script_call_in_new c u n hq))
+    (fun c u hm => by
+      rcases (shape_facts hPD_script (step_script_shape c u) n).2.2.2.2 hm with ho | ⟨d, rest, hev, hp⟩
+      · exact Or.inl ho
+      · exact Or.inr ⟨d, by rw [hev]; simp, hp⟩)
+    uses c i hi
+  rcases key with hm | hk
+  · exact absurd hm hn
+  · exact hk
 
 /-- Rule before class name, for component classes (ids below 1000; names of constant classes carry no rule). -/
 theorem class_def_before_name (uses : List Use) (c : Ctx) (id : Nat) (hid : id ∉ c.classes) (hlt : id < 1000) (i : Nat)
     (hi : (run c uses).2[i]? = some (.className id)) :
     ∃ j, j < i ∧ ∃ e, (run c uses).2[j]? = some e ∧ isStyleDefOf id e = true := by
-  sorry
+  have key := before_generic (.className id) (isStyleDefOf id) (fun c => id ∈ c.classes) rfl
+    (fun c u hq => (shape_facts hPD_style (step_class_shape c u) id).2.2.2.2 (class_name_in_new c u id hlt hq))
+    (fun c u hm => by
+      rcases (shape_facts hPD_style (step_class_shape c u) id).2.2.2.2 hm with ho | ⟨d, rest, hev, hp⟩
+      · exact Or.inl ho
+      · exact Or.inr ⟨d, by rw [hev]; simp, hp⟩)
+    uses c i hi
+  rcases key with hm | hk
+  · exact absurd hm hid
+  · exact hk
 
 end TemplVerif.Proofs.Registry
